@@ -67,6 +67,11 @@ theorem crash_ckpt_example : ∃ db1 ptN tblsN rN,
       simp only [dbB, List.mem_singleton] at hr
       subst hr
       decide)
+    (by
+      intro r hr _
+      simp only [dbB, List.mem_singleton] at hr
+      subst hr
+      decide)
   exact ⟨db1, ptN, tblsN, rN, run, by rw [hw]; rfl, e, hA1, hA2⟩
 
 /-! ### rounds -/
@@ -122,7 +127,7 @@ theorem rounds_example : ∃ dbC db1 dbR1 db2 dbR2 pt2 tbls2,
   obtain ⟨sC, efC, hhC, _⟩ := flushPages_spec [] st1 memFiled_st1
   have hk0 : Ckpt (clean sch1) { store := sC, wal := [] } sdbA0 (clean pt0) (cleanT [(tname, t0)]) :=
     ckpt_of_flushed_gen abs1.toV pt0_self freshM_st1 memFiled_st1 (by intro r hr; cases hr)
-      (by intro r hr; cases hr) synced_st1 efC
+      (by intro r hr; cases hr) (by intro r hr; cases hr) synced_st1 efC
   have hflush : Engine.flush dbA [] = .ok () { store := sC, wal := [] } := by
     simp only [Engine.flush, Engine.liftS, dbA, efC]
   have hmem : (tname, clean t0) ∈ cleanT [(tname, t0)] := List.mem_singleton.mpr rfl
